@@ -1553,6 +1553,61 @@ fn run_upvalue_list(ops: &[Op]) {
     }
 }
 
+
+// ---- C16: Module::swap_cards against the property's statement, exhaustively over one small module with deep nesting
+// (candidate indices: both functions, every path over {0,1,2} up to length 4, valid and invalid; every ordered pair)
+fn me_module() -> Module {
+    use cao_lang::compiler::{Card, CardBody, UnaryExpression};
+    let not = |c: Card| -> Card { CardBody::Not(UnaryExpression::new(c)).into() };
+    Module {
+        submodules: Default::default(),
+        imports: Default::default(),
+        functions: vec![
+            ("main".to_string(), Function::default().with_card(Card::scalar_int(1)).with_card(not(not(not(Card::scalar_int(42))))).with_card(not(Card::scalar_int(7)))),
+            ("other".to_string(), Function::default().with_card(not(not(Card::scalar_int(5)))).with_card(Card::scalar_int(9))),
+        ],
+    }
+}
+fn me_candidates() -> Vec<(usize, Vec<u32>)> {
+    let mut out = vec![];
+    for f in 0..2usize {
+        let mut level: Vec<Vec<u32>> = vec![vec![]];
+        for _ in 0..4 {
+            let mut next = vec![];
+            for p in &level { for k in 0..3u32 { let mut q = p.clone(); q.push(k); next.push(q); } }
+            for q in &next { out.push((f, q.clone())); }
+            level = next;
+        }
+    }
+    out
+}
+fn run_module_edit(ops: &[Op]) {
+    use cao_lang::compiler::CardIndex;
+    let cands = me_candidates();
+    let pairs: Vec<(usize, usize)> = if ops.len() == 2 { vec![(ops[0].1 as usize % cands.len(), ops[1].1 as usize % cands.len())] }
+        else { (0..cands.len()).flat_map(|a| (0..cands.len()).map(move |b| (a, b))).collect() };
+    for (ia, ib) in pairs {
+        let (fa, pa) = &cands[ia]; let (fb, pb) = &cands[ib];
+        let a = CardIndex::from_slice(*fa, pa); let b = CardIndex::from_slice(*fb, pb);
+        let mut m = me_module();
+        let before = format!("{:?}", m);
+        let valid = |m: &Module, i: &CardIndex| { let s = format!("{:?}", m.get_card(i)); s.starts_with("Some") || s.starts_with("Ok") };
+        let (va, vb) = (valid(&m, &a), valid(&m, &b));
+        let related = fa == fb && pa != pb && (pa.starts_with(pb) || pb.starts_with(pa));
+        let rops = [(0u8, ia as u64, 0i64), (0u8, ib as u64, 0i64)];
+        let r = m.swap_cards(&a, &b).is_ok();
+        let after = format!("{:?}", m);
+        if !r {
+            if after != before { fail("module_edit", &rops, 0, format!("swap_cards({fa}:{pa:?}, {fb}:{pb:?}) failed but changed the module: {after}")); }
+            if va && vb && !related && (ia != ib) { fail("module_edit", &rops, 0, format!("swap_cards({fa}:{pa:?}, {fb}:{pb:?}) of two valid unrelated cards failed")); }
+        } else {
+            if !va || !vb { fail("module_edit", &rops, 0, format!("swap_cards({fa}:{pa:?}, {fb}:{pb:?}) with an invalid index succeeded")); }
+            if related { fail("module_edit", &rops, 0, format!("swap_cards({fa}:{pa:?}, {fb}:{pb:?}) of a card with its own ancestor succeeded")); }
+            if !m.swap_cards(&a, &b).is_ok() || format!("{:?}", m) != before { fail("module_edit", &rops, 1, format!("swapping {fa}:{pa:?} and {fb}:{pb:?} twice is not the identity")); }
+        }
+    }
+}
+
 fn dispatch(unit: &str, ops: &[Op], variant: u64) {
     VARIANT.store(variant, std::sync::atomic::Ordering::Relaxed);
     match unit {
@@ -1575,6 +1630,7 @@ fn dispatch(unit: &str, ops: &[Op], variant: u64) {
         "operand_rooting" => run_operand_rooting(ops),
         "native_keys" => run_native_keys(ops),
         "serde_roundtrip" => run_serde_roundtrip(ops, variant),
+        "module_edit" => run_module_edit(ops),
         _ => { eprintln!("unknown unit {unit}"); std::process::exit(2); }
     }
 }
@@ -1594,6 +1650,11 @@ fn main() {
     if unit == "label_collision" {
         search_label_collision();
         println!("OK no card label equals the label of an earlier function for functions < 48, card paths [i, j] with i, j < 1600");
+        return;
+    }
+    if unit == "module_edit" {
+        dispatch(unit, &[], 0);
+        println!("OK every ordered pair of 240 candidate indices: failed swaps left the module unchanged, successful ones undo themselves");
         return;
     }
     if unit == "cyclic_table" {
